@@ -420,7 +420,7 @@ def typed_value(s, dt, scope):
         return ("str", s)
     if dt == XSD + "anyURI":
         return ("uri", s)
-    if dt in (XSD + "QName", PROV + "QUALIFIED_NAME"):
+    if dt == PROV + "QUALIFIED_NAME":  # a literal typed xsd:QName stays a typed literal
         p = Parser(s)
         return ("qname", p.qualified_name(scope))
     if dt == XSD + "boolean":
